@@ -872,6 +872,10 @@ func replayMain(args []string) {
 	fmt.Println(v)
 	if strings.HasPrefix(v, "REPLAY-FAIL") || strings.HasPrefix(v, "REPLAY-PANIC") || strings.HasPrefix(v, "REPLAY-CRASH") {
 		fmt.Printf("VIOLATION property=%s replay=%s\n", spec.ID, args[1])
+		rp.close()
+		for _, c := range exitCleanups {
+			c()
+		}
 		os.Exit(1)
 	}
 }
